@@ -33,7 +33,8 @@ Obs(r) ==
    poolA |-> Fn(Range(r.pool), LAMBDA h : h.id, LAMBDA h : h.addr),
    polE |-> {[id |-> h.id, addr |-> h.addr] : h \in Range(r.pol)},
    down |-> {h.id : h \in {x \in Range(r.hosts) : ~x.up}},
-   served |-> Range(r.served), refreshes |-> r.refreshes, panic |-> r.panic, stuck |-> r.stuck]
+   served |-> Range(r.served), refreshes |-> r.refreshes, panic |-> r.panic, stuck |-> r.stuck,
+   upcalls |-> Range(r.upcalls)]
 DOf(o) == [hosts |-> o.hosts, byAddr |-> o.byAddr, hlist |-> o.hlist, pool |-> DOMAIN o.poolA,
            pol |-> {e.id : e \in o.polE}, down |-> o.down]
 
